@@ -42,8 +42,9 @@ var native, builtin map[string]ModuleLoader
 // Registry contains a cache of compiled modules which can be used by multiple Runtimes
 type Registry struct {
 	sync.Mutex
-	native   map[string]ModuleLoader
-	compiled map[string]*js.Program
+	native    map[string]ModuleLoader
+	compiled  map[string]*js.Program
+	manifests map[string][]byte // package.json files by path, see getManifest
 
 	srcLoader     SourceLoader
 	pathResolver  PathResolver
@@ -190,15 +191,45 @@ func (r *Registry) getSource(p string) ([]byte, error) {
 	return srcLoader(p)
 }
 
+// getManifest returns the contents of a package.json. Like the source of a module it is fetched under the Registry's
+// lock (the SourceLoader is not asked from two runtimes at once) and at most once per Registry.
+func (r *Registry) getManifest(p string) ([]byte, error) {
+	r.Lock()
+	defer r.Unlock()
+
+	if buf, ok := r.manifests[p]; ok {
+		return buf, nil
+	}
+	buf, err := r.getSource(p)
+	if err != nil {
+		return nil, err
+	}
+	if r.manifests == nil {
+		r.manifests = make(map[string][]byte)
+	}
+	r.manifests[p] = buf
+	return buf, nil
+}
+
 func (r *Registry) getCompiledSource(p string) (*js.Program, error) {
 	r.Lock()
 	defer r.Unlock()
 
 	prg := r.compiled[p]
 	if prg == nil {
-		buf, err := r.getSource(p)
-		if err != nil {
-			return nil, err
+		buf, ok := r.manifests[p] // a package.json that was read as a manifest is not fetched again as a module
+		if !ok {
+			var err error
+			buf, err = r.getSource(p)
+			if err != nil {
+				return nil, err
+			}
+			if filepath.Base(p) == "package.json" { // ... nor the other way round
+				if r.manifests == nil {
+					r.manifests = make(map[string][]byte)
+				}
+				r.manifests[p] = buf
+			}
 		}
 		s := string(buf)
 
